@@ -37,6 +37,12 @@ type solverSpec struct {
 	args func(file string, ms int) []string
 }
 
+// racers: (solver, rendering) pairs tried on an obligation the first pass left open.
+var racers = []struct {
+	solver int
+	mode   Mode
+}{{0, modeQQ}, {0, modeLQ}, {0, modeQU}, {1, modeQQ}, {2, modeQQ}, {0, modeLU}}
+
 var solvers = []solverSpec{
 	{"z3-new", func(f string, ms int) []string { return []string{"z3-new", fmt.Sprintf("-t:%d", ms), f} }},
 	{"z3", func(f string, ms int) []string { return []string{"z3", fmt.Sprintf("-t:%d", ms), f} }},
@@ -45,7 +51,7 @@ var solvers = []solverSpec{
 	}},
 }
 
-func (vc *VC) header() string {
+func (vc *VC) header(m Mode) string {
 	var b strings.Builder
 	b.WriteString(prelude)
 	for _, s := range vc.SortDecl {
@@ -53,6 +59,12 @@ func (vc *VC) header() string {
 		b.WriteString("\n")
 	}
 	for _, s := range vc.FunDecl {
+		if strings.HasPrefix(s, ";;U\n") && !m.Unroll {
+			continue
+		}
+		if strings.HasPrefix(s, ";;Q\n") && m.Unroll {
+			continue
+		}
 		b.WriteString(s)
 		b.WriteString("\n")
 	}
@@ -61,32 +73,51 @@ func (vc *VC) header() string {
 
 // script renders the whole VC as one incremental script; returns the
 // obligation indices in check-sat order.
-const (
-	modeQ = iota // quantified (all solvers)
-	modeL        // lambda arrays (z3 family)
-	modeC        // bounded instances (candidate models only; not a proof rendering)
+// A rendering mode: how row updates are expressed (quantified / lambda /
+// bounded instances) and whether literal-range quantifiers in clauses are
+// unrolled. Q and L, unrolled or not, are logically equivalent; C is weaker
+// (fewer constraints) and is never used as a proof.
+type Mode struct {
+	Row    byte // 'Q', 'L', 'C'
+	Unroll bool
+}
+
+var (
+	modeQU = Mode{'Q', true}
+	modeQQ = Mode{'Q', false}
+	modeLU = Mode{'L', true}
+	modeLQ = Mode{'L', false}
+	modeCU = Mode{'C', true}
 )
 
-func (it *Item) text(mode int) string {
-	switch mode {
-	case modeL:
+func (m Mode) String() string {
+	u := "q"
+	if m.Unroll {
+		u = "u"
+	}
+	return string(m.Row) + u
+}
+
+func (it *Item) text(m Mode) string {
+	switch m.Row {
+	case 'L':
 		if it.Alt != "" {
 			return it.Alt
 		}
-	case modeC:
+	case 'C':
 		if it.AltC != "" {
 			return it.AltC
 		}
-		if it.Alt != "" {
-			return it.Alt
-		}
+	}
+	if m.Unroll && it.AltU != "" {
+		return it.AltU
 	}
 	return it.Text
 }
 
-func (vc *VC) script(alt int) (string, []int) {
+func (vc *VC) script(alt Mode) (string, []int) {
 	var b strings.Builder
-	b.WriteString(vc.header())
+	b.WriteString(vc.header(alt))
 	var idx []int
 	for i, it := range vc.Items {
 		switch it.Kind {
@@ -97,9 +128,9 @@ func (vc *VC) script(alt int) (string, []int) {
 			idx = append(idx, i)
 			fmt.Fprintf(&b, "; obligation %s\n(push 1)\n", it.Name)
 			if it.Expect != "sat" {
-				fmt.Fprintf(&b, "(assert (not %s))\n", it.Text)
+				fmt.Fprintf(&b, "(assert (not %s))\n", it.text(alt))
 			} else {
-				fmt.Fprintf(&b, "(assert %s)\n", it.Text)
+				fmt.Fprintf(&b, "(assert %s)\n", it.text(alt))
 			}
 			b.WriteString("(check-sat)\n(pop 1)\n")
 		}
@@ -108,9 +139,9 @@ func (vc *VC) script(alt int) (string, []int) {
 }
 
 // single renders one obligation as a standalone script (with model output).
-func (vc *VC) single(oi int, alt int) string {
+func (vc *VC) single(oi int, alt Mode) string {
 	var b strings.Builder
-	b.WriteString(vc.header())
+	b.WriteString(vc.header(alt))
 	for i, it := range vc.Items {
 		if i >= oi {
 			break
@@ -122,9 +153,9 @@ func (vc *VC) single(oi int, alt int) string {
 	}
 	it := vc.Items[oi]
 	if it.Expect != "sat" {
-		fmt.Fprintf(&b, "(assert (not %s))\n", it.Text)
+		fmt.Fprintf(&b, "(assert (not %s))\n", it.text(alt))
 	} else {
-		fmt.Fprintf(&b, "(assert %s)\n", it.Text)
+		fmt.Fprintf(&b, "(assert %s)\n", it.text(alt))
 	}
 	b.WriteString("(check-sat)\n")
 	return b.String()
@@ -161,7 +192,7 @@ func firstWord(line string) string {
 // solveVC discharges all obligations of a VC.
 func solveVC(vc *VC, dir string, quickMs, fullMs int, par chan struct{}) []Result {
 	base := filepath.Join(dir, mangle(vc.Fn))
-	script, idx := vc.script(modeL)
+	script, idx := vc.script(modeQQ)
 	file := base + ".smt2"
 	os.WriteFile(file, []byte(script), 0o644)
 	results := make([]Result, len(idx))
@@ -179,6 +210,9 @@ func solveVC(vc *VC, dir string, quickMs, fullMs int, par chan struct{}) []Resul
 	par <- struct{}{}
 	out, secs := runSolver(context.Background(), solvers[0], file, quickMs)
 	<-par
+	if os.Getenv("GOVC_DEBUG") != "" {
+		fmt.Fprintf(os.Stderr, "pass1 %s: %.1fs for %d obligations\n", vc.Fn, secs, len(idx))
+	}
 	k := 0
 	for _, line := range strings.Split(out, "\n") {
 		w := firstWord(line)
@@ -212,14 +246,15 @@ func solveVC(vc *VC, dir string, quickMs, fullMs int, par chan struct{}) []Resul
 		go func(k int) {
 			defer wg.Done()
 			oi := idx[k]
-			f := fmt.Sprintf("%s.%d.smt2", base, k)
-			os.WriteFile(f, []byte(vc.single(oi, modeL)), 0o644)
-			os.WriteFile(f+".q.smt2", []byte(vc.single(oi, modeQ)), 0o644)
+			f := fmt.Sprintf("%s.%d", base, k)
+			for _, m := range []Mode{modeQU, modeQQ, modeLU, modeLQ} {
+				os.WriteFile(f+"."+m.String()+".smt2", []byte(vc.single(oi, m)), 0o644)
+			}
 			raceSingle(vc, &results[k], f, fullMs, par)
 			if results[k].Status == "unknown" {
 				// candidate counter-model from the bounded-instance rendering
-				cf := f + ".c.smt2"
-				os.WriteFile(cf, []byte(vc.single(oi, modeC)), 0o644)
+				cf := f + ".Cu.smt2"
+				os.WriteFile(cf, []byte(vc.single(oi, modeCU)), 0o644)
 				par <- struct{}{}
 				out, _ := runSolver(context.Background(), solvers[0], cf, fullMs)
 				<-par
@@ -248,21 +283,19 @@ func raceSingle(vc *VC, r *Result, file string, ms int, par chan struct{}) {
 		word   string
 		out    string
 		secs   float64
+		file   string
 	}
 	ctx, cancel := context.WithCancel(context.Background())
 	defer cancel()
-	ch := make(chan ans, len(solvers))
-	for _, sp := range solvers {
-		go func(sp solverSpec) {
+	ch := make(chan ans, len(racers))
+	for _, rc := range racers {
+		go func(sp solverSpec, m Mode) {
 			par <- struct{}{}
 			defer func() { <-par }()
+			sf := file + "." + m.String() + ".smt2"
 			if ctx.Err() != nil {
-				ch <- ans{sp.name, "", "", 0}
+				ch <- ans{sp.name + "/" + m.String(), "", "", 0, sf}
 				return
-			}
-			sf := file
-			if sp.name == "cvc5" {
-				sf = file + ".q.smt2" // quantified rendering (no lambda terms)
 			}
 			out, secs := runSolver(ctx, sp, sf, ms)
 			w := ""
@@ -271,11 +304,11 @@ func raceSingle(vc *VC, r *Result, file string, ms int, par chan struct{}) {
 					break
 				}
 			}
-			ch <- ans{sp.name, w, out, secs}
-		}(sp)
+			ch <- ans{sp.name + "/" + m.String(), w, out, secs, sf}
+		}(solvers[rc.solver], rc.mode)
 	}
 	var refuted *ans
-	for range solvers {
+	for range racers {
 		a := <-ch
 		if a.word == r.Expect {
 			r.Status, r.Solver, r.Secs = "discharged", a.solver, a.secs
@@ -285,18 +318,20 @@ func raceSingle(vc *VC, r *Result, file string, ms int, par chan struct{}) {
 		if (a.word == "sat" || a.word == "unsat") && refuted == nil {
 			aa := a
 			refuted = &aa
+			cancel() // a definitive answer: no need to wait for the slower solvers
+			break
 		}
-		if a.word == "" && a.out != "" {
+		if a.word == "" && a.out != "" && ctx.Err() == nil {
 			r.Detail += a.solver + ": " + truncate(a.out, 400) + "\n"
 		}
 	}
 	if refuted != nil {
 		r.Status, r.Solver, r.Secs = "refuted", refuted.solver, refuted.secs
-		r.Formula = file
+		r.Formula = refuted.file
 		return
 	}
 	r.Status = "unknown"
-	r.Formula = file
+	r.Formula = file + ".Qu.smt2"
 }
 
 func truncate(s string, n int) string {
